@@ -142,8 +142,8 @@ fn run_one(scn: u64, s: &Sched, rng: &mut StdRng) -> OneResult {
         Listener(lst.clone()).max_channels_per_key(n, keymaker),
     ));
     let flag = Flag::new("limiter", true);
-    let mut live: BTreeMap<u64, Box<dyn std::any::Any>> = BTreeMap::new();
-    let mut peers: Vec<Box<dyn std::any::Any>> = vec![];
+    let mut live: BTreeMap<u64, Pin<Box<tarpc::server::limits::channels_per_key::TrackedChannel<Ch, HKey>>>> = BTreeMap::new();
+    let mut peers: BTreeMap<u64, Box<dyn std::any::Any>> = BTreeMap::new();
     let mut arrivals = 0u64;
     let mut done_steps = vec![];
     let mut skipped = 0u64;
@@ -167,6 +167,9 @@ fn run_one(scn: u64, s: &Sched, rng: &mut StdRng) -> OneResult {
             }
             for a in live.keys() {
                 choices.push(json!({"a":"Close","ch": a}));
+                if peers.contains_key(a) && rng.gen_range(0..3) == 0 {
+                    choices.push(json!({"a":"Exhaust","ch": a}));
+                }
             }
             if flag.is_set() && stream.is_some() {
                 for _ in 0..3 {
@@ -194,7 +197,7 @@ fn run_one(scn: u64, s: &Sched, rng: &mut StdRng) -> OneResult {
                 let k = step["k"].as_u64().unwrap();
                 arrivals += 1;
                 let (client_side, server_side) = channel::unbounded();
-                peers.push(Box::new(client_side));
+                peers.insert(arrivals, Box::new(client_side));
                 let ch: Ch = BaseChannel::with_defaults(server_side);
                 ks.borrow_mut().pending_keys.push_back((arrivals, k));
                 emit("Arrive", json!({"ch": arrivals, "k": k}));
@@ -212,6 +215,27 @@ fn run_one(scn: u64, s: &Sched, rng: &mut StdRng) -> OneResult {
                 if let Some(c) = live.remove(&a) {
                     emit("Close", json!({"ch": a}));
                     drop(c);
+                } else {
+                    skipped += 1;
+                    continue;
+                }
+            }
+            "Exhaust" => {
+                // the peer of a yielded channel hangs up and the channel's own request stream is polled to its end, but
+                // the channel stays alive (its owner keeps it): it still counts against its key
+                let a = step["ch"].as_u64().unwrap();
+                let had_peer = peers.remove(&a).is_some(); // the peer's end is dropped here
+                if let (true, Some(tc)) = (had_peer, live.get_mut(&a)) {
+                    let w = futures::task::noop_waker();
+                    let mut cx = Context::from_waker(&w);
+                    let mut ended_stream = false;
+                    for _ in 0..4 {
+                        if let Poll::Ready(None) = tc.as_mut().poll_next(&mut cx) {
+                            ended_stream = true;
+                            break;
+                        }
+                    }
+                    emit("Exhaust", json!({"ch": a, "ended": ended_stream}));
                 } else {
                     skipped += 1;
                     continue;
@@ -245,7 +269,7 @@ fn run_one(scn: u64, s: &Sched, rng: &mut StdRng) -> OneResult {
                     Ok(Poll::Ready(Some(tc))) => {
                         let (a, k) = ks.borrow_mut().considering.take().expect("yield without consider");
                         emit("Yield", json!({"ch": a, "k": k}));
-                        live.insert(a, Box::new(tc));
+                        live.insert(a, Box::pin(tc));
                         // a stream that returned an item is polled again
                         flag.set.store(true, std::sync::atomic::Ordering::SeqCst);
                         proj = json!({"res": "yield", "ch": a});
